@@ -1,4 +1,5 @@
 import BddProofs.Reach
+import BddProofs.DriverGood
 /-! # C05 — garbage collection never changes the meaning of anything reachable from the roots
 
 `collectGarbage` is the model of `collect_garbage`: both caches cleared, the breadth-first mark
@@ -48,9 +49,27 @@ example : ∃ s', collectGarbage s4 [] = .ok s' ∧ Good s' := by
   obtain ⟨s', h, g, _⟩ := collect_s4
   exact ⟨s', h, g⟩
 
+
+/-- the same through the dispatcher the model driver really runs: a `gc` request is accepted exactly when
+every root names an occupied cell, it always completes (`.ok`), and then everything above holds — with no
+hypothesis about the roots left (empty, duplicated, complemented and constant roots included) -/
+theorem C05_driver_collection {fuel : Nat} {s : St} {roots : List Ref} (hg : Good s)
+    (hok : (Req.gc roots).ok s = true) :
+    ∃ s', exec fuel s (.gc roots) = .unit (.ok s') ∧ Good s' ∧
+      (∀ i, s'.nodes i = if i ∈ descendants s roots then s.nodes i else none) ∧
+      (∀ r φ, Valid s.nodes r φ → (r.idx = 1 ∨ r.idx ∈ descendants s roots) → Valid s'.nodes r φ) ∧
+      (∀ k, s'.cache.lookup k = none) ∧ (∀ f, s'.sizeCache.lookup f = none) := by
+  have hl : ∀ r, r ∈ roots → Live s r.idx := fun r hr =>
+    let ⟨_, v⟩ := all_liveB hg (by simpa only [Req.ok] using hok) r hr
+    Live.of_valid v
+  obtain ⟨s', h⟩ := collect_total hg hl hg.rs
+  refine ⟨s', ?_, C05_collection hg hl h⟩
+  unfold exec; rw [if_pos hok]; simp only [runReq, h]
+
 end P
 #print axioms P.C05_collection
 #print axioms P.C05_roots_keep_meaning
 #print axioms P.C05_still_canonical
 #print axioms P.C05_collection_total
 #print axioms P.C05_later_operations
+#print axioms P.C05_driver_collection
